@@ -38,11 +38,20 @@ func c05RunOne(x *X, g *impCase, sched []int) (got string, err error) {
 
 func c05RunOneR(x *X, g *impCase, sched []int) (got string, r *gateResult, err error) {
 	want := fnames(g.refClosure(nil))
-	gr := newGateReader(g)
-	r = runGated(g, gr, sched, nil)
+	r, death, inconcl := gatedRun(g, sched, "c05")
+	if inconcl {
+		x.Inconclusive("a run that overran its time bound did not reproduce")
+		return "", r, nil
+	}
+	if death != nil {
+		return "", r, finding("crash:"+death.Sig(), "the process ended during import retrieval: %s\n%s", firstLine(death.Text), g.describe())
+	}
 	if r.Hung {
 		// retry once: only a reproduced stall counts
-		r2 := runGated(g, newGateReader(g), sched, nil)
+		r2, death2, _ := gatedRun(g, sched, "c05")
+		if death2 != nil {
+			return "", r2, finding("crash:"+death2.Sig(), "the process ended during import retrieval: %s\n%s", firstLine(death2.Text), g.describe())
+		}
 		if r2.Hung {
 			return "", r, finding("hang", "import retrieval did not finish (reads issued: %d, releases %v)\n%s", r2.Total, r2.Releases, g.describe())
 		}
@@ -52,8 +61,8 @@ func c05RunOneR(x *X, g *impCase, sched []int) (got string, r *gateResult, err e
 	if r.Panic != "" {
 		return "", r, finding("panic-in-parse", "panic during Parse: %s\n%s", r.Panic, g.describe())
 	}
-	if r.Err != nil {
-		return "", r, fmt.Errorf("all files exist and are valid, yet Parse failed: %v\nreleases %v\n%s", r.Err, r.Releases, g.describe())
+	if r.HasErr {
+		return "", r, fmt.Errorf("all files exist and are valid, yet Parse failed: %v\nreleases %v\n%s", r.ErrText, r.Releases, g.describe())
 	}
 	if len(r.Unknown) > 0 {
 		return "", r, fmt.Errorf("import resolved to names no file has: %q\n%s", r.Unknown, g.describe())
@@ -72,7 +81,7 @@ func c05RunOneR(x *X, g *impCase, sched []int) (got string, r *gateResult, err e
 	} else {
 		x.Class("pending_prediction_missed")
 	}
-	order, apps := contributions(r.Module)
+	order, apps := r.Order, r.Apps
 	got = strings.Join(order, " ")
 	if got != strings.Join(want, " ") {
 		model := fnames(g.modelOrder(r.ModelClaimed, nil))
@@ -214,6 +223,6 @@ var c05Enum = Define("C05", "allorders",
 
 func TestC05(t *testing.T) {
 	checkKnown(t, "C05")
-	c05Prop.Run(t, scale(150, 1500))
-	c05Enum.Run(t, scale(40, 400))
+	c05Prop.Run(t, scale(300, 2500))
+	c05Enum.Run(t, scale(60, 500))
 }
